@@ -199,6 +199,26 @@ ok = ok and same('same verdict again', (v.is_valid, v.num_failures), (sch.valida
 return ok
 """
     out.append(mk_case("c08.step.container_subclasses", [("t", "int"), ("u1", UN)], body, pre=[f"BU({L}, t, u1)"], stubs=["sym_repr"]))
+    # results do not depend on what was built or asked earlier in the process (hidden process-wide state is state too):
+    # path parts that compare equal across numeric types (2 / 2.0, 1 / True / 1.0, 0 / 0.0 / False), in both orders,
+    # every answer compared with the reference model rather than with later-built 'fresh' objects
+    for oid, prims in [("floats_first", "(2.0, 1.0, 0.0, 2, 1, 0, True, False)"), ("ints_first", "(2, 1, 0, 2.0, 1.0, 0.0, True, False)"),
+                       ("bools_first", "(True, False, 1, 0, 1.0, 0.0, 2, 2.0)")]:
+        body = f"""
+doc = {{'xs': [u1, 'b', u2], 'm': {{2: u1, 1: u2, 0: 7}}, 'n': [[u2, 'd']]}}
+ok = True
+for prim in {oid and prims}:
+    for parts in (('xs', prim), ('m', prim), ('n', 0, prim)):
+        PT = tuple(('prim', q) for q in parts)
+        exp = ref_walk(PT, doc)
+        expv = exp[0][0] if exp else None
+        ok = ok and note('Data.get(*parts)', Data(doc).get(*parts) is expv)
+        ok = ok and note('DataPath.get_data', DataPath(*parts).get_data(doc) is expv)
+        t = Rule(parts, Value.is_instance(int)).test(doc)
+        ok = ok and same('rule on that path', (t.tested, t.is_valid), (bool(exp), (not exp) or type(expv) in (int, bool)))
+return ok
+"""
+        out.append(mk_case(f"c08.seq.numeric_twin_parts.{oid}", [("u1", UN), ("u2", "int")], body, pre=[f"BU({L}, u1, u2)"], stubs=["sym_repr"]))
     # one condition object shared by two rules and a stand-alone filter; one path shared by two rules
     body = f"""
 def make():
